@@ -27,6 +27,11 @@ Definition bind {A B} (m : M A) (f : A -> M B) : M B :=
 Notation "'do' x <- m ; f" := (bind m (fun x => f))
   (at level 200, x pattern, m at level 100, f at level 200).
 
+(* list reversal in linear time (List.rev is quadratic when run); equal to rev *)
+Definition frev {A} (l : list A) : list A := rev_append l [].
+Lemma frev_rev {A} (l : list A) : frev l = rev l.
+Proof. unfold frev. symmetry. apply rev_alt. Qed.
+
 Definition len {A} (s : list A) : Z := Z.of_nat (length s).
 
 (* s[i] with Go's bounds check *)
